@@ -198,9 +198,12 @@ func c10lifecycle(c *Ctx) {
 			})
 			ips := c.paths("C10.R4", f, px.Config{MaxVisits: 2})
 			c.forall("C10.R4", mrPkg+".executeMappers#dispatch", "each item received from the source starts exactly one worker; a closed source returns the slot and stops", f, ips, func(p *px.Path) (bool, string) {
-				var pendingItem bool
+				var pendingItem, closed bool
 				for i := range p.Events {
 					e := &p.Events[i]
+					if closed && !e.InDefer && (e.Kind == px.EvSelect || e.Kind == px.EvGo) {
+						return false, "the dispatcher keeps looping after the source was closed (it spins until cancelled instead of finishing)"
+					}
 					switch {
 					case e.Kind == px.EvRecv && fieldLoadDeep(e.Addr, "source", nil):
 						if pendingItem {
@@ -211,6 +214,7 @@ func c10lifecycle(c *Ctx) {
 						cnd := e.Cond.Strip(false)
 						if cnd.Kind == px.KExtract && cnd.Index == 1 && cnd.X.Kind == px.KRecv && !e.Taken {
 							pendingItem = false // closed
+							closed = true
 						}
 					case e.Kind == px.EvGo:
 						if !pendingItem {
